@@ -5,6 +5,8 @@ package app
 // C14 binding: the real filterOutNodeFromPositions + getMostDesirableNode.
 
 import (
+	"github.com/yandex/mysync/internal/mysql"
+	"github.com/yandex/mysync/internal/config"
 	"encoding/json"
 	"fmt"
 	"math/rand"
@@ -42,6 +44,9 @@ func candSetText(set []int) string {
 	return vFormat(s)
 }
 
+// candVia: "" = the pure function with an explicit bound; "optimise" = through App.getMostDesirableReplicaToOptimize
+var candVia string
+
 func candOne(out string, pos []candPos, b, from int) candRow {
 	row := candRow{Pos: pos, B: b, From: from}
 	if row.Pos == nil {
@@ -78,6 +83,16 @@ func candOne(out string, pos []candPos, b, from int) candRow {
 		p2 := positions
 		if fromHost != "" {
 			p2 = filterOutNodeFromPositions(positions, fromHost)
+		}
+		if candVia == "optimise" {
+			// the call site of the turbo phase: the bound is the replication mark of the optimisation settings, NOT the
+			// promotion bound (which is configured to a different value here on purpose)
+			cfg, _ := config.DefaultConfig()
+			cfg.OptimizationConfig.HighReplicationMark = time.Duration(b) * time.Millisecond
+			cfg.PriorityChoiceMaxLag = time.Duration(b)*time.Millisecond/2 + 7*time.Second
+			app := &App{logger: &logger, config: &cfg, switchHelper: mysql.NewSwitchHelper(&cfg)}
+			r.host, r.err = app.getMostDesirableReplicaToOptimize(p2)
+			return
 		}
 		r.host, r.err = getMostDesirableNode(&logger, p2, time.Duration(b)*time.Millisecond)
 	}()
@@ -166,5 +181,15 @@ func TestVerifCandidate(t *testing.T) {
 			hangs++
 		}
 		w.emit(r)
+		if i%4 == 0 && b > 0 {
+			// the same list through the call site of the turbo phase (its own configured bound)
+			candVia = "optimise"
+			r2 := candOne(out, cur, b, 0)
+			candVia = ""
+			if r2.Hang {
+				hangs++
+			}
+			w.emit(r2)
+		}
 	}
 }
